@@ -358,7 +358,7 @@ def main():
         for (crate, fg, jc), gobs in groups.items():
             flags = FLAG_GROUPS[fg]
             tmo = max(o.get("timeout", 600) for o in gobs)
-            mem = max(o.get("mem_gb", 12) for o in gobs)
+            mem = max(o.get("mem_gb", 4) for o in gobs)
             jobs = max(1, min(a.jobs, len(gobs), int(56 // mem)))
             out_json = os.path.join(logdir, "%s.%s.%s.json" % (crate, fg, jc))
             logf = os.path.join(logdir, "%s.%s.%s.log" % (crate, fg, jc))
